@@ -4,6 +4,7 @@ import (
 	"math"
 	"net/http"
 	"sync"
+	"time"
 )
 
 // LeastConnectionsStrategy implements a least-connections load balancing strategy
@@ -32,7 +33,12 @@ func (lc *LeastConnectionsStrategy) NextBackend(r *http.Request) *Backend {
 	minConnections := int32(math.MaxInt32)
 
 	// Find the backend with the least active connections
+	now := time.Now()
 	for _, backend := range lc.backends {
+		// Only consider backends outside an unhealthy window
+		if !backend.eligible(now) {
+			continue
+		}
 		connections := backend.GetActiveConnections()
 		if connections < minConnections {
 			minConnections = connections
